@@ -476,6 +476,7 @@ Require Verif.Tie.Loops.Hex.
 Require Verif.Tie.Loops.Npm.
 Require Verif.Tie.Loops.Nuget.
 Require Verif.Tie.Loops.Semver.
+Require Verif.Tie.Extra.Npm.
 Definition C08_tie_cargo_compareInt := @Verif.Tie.Cargo.tie_cargo_compareInt.
 Definition C08_tie_cargo_compare := @Verif.Tie.Cargo.tie_cargo_compare.
 Definition C08_tie_golang_compareInt := @Verif.Tie.Golang.tie_golang_compareInt.
@@ -503,6 +504,13 @@ Definition C08_tie_loops_nuget_comparePrerelease := @Verif.Tie.Loops.Nuget.tie_l
 Definition C08_tie_nuget_compare_closed := @Verif.Tie.Loops.Nuget.tie_nuget_compare_closed.
 Definition C08_tie_loops_semver_comparePrerelease := @Verif.Tie.Loops.Semver.tie_loops_semver_comparePrerelease.
 Definition C08_tie_semver_compare_closed := @Verif.Tie.Loops.Semver.tie_semver_compare_closed.
-Definition C08_ties_all := (C08_tie_cargo_compare, (C08_tie_cargo_compareInt, (C08_tie_cargo_compare_closed, (C08_tie_comparePreRelease_total_model, (C08_tie_comparePrereleaseIdentifiers_total_model, (C08_tie_comparePrerelease_total_model, (C08_tie_golang_Version_Compare, (C08_tie_golang_compareInt, (C08_tie_golang_compare_closed, (C08_tie_hex_compare, (C08_tie_hex_compareInt, (C08_tie_hex_compare_closed, (C08_tie_loops_cargo_comparePrereleaseIdentifiers, (C08_tie_loops_golang_comparePrerelease, (C08_tie_loops_hex_comparePreRelease, (C08_tie_loops_npm_comparePrerelease, (C08_tie_loops_nuget_comparePrerelease, (C08_tie_loops_semver_comparePrerelease, (C08_tie_npm_compare, (C08_tie_npm_compareInt, (C08_tie_npm_compare_closed, (C08_tie_nuget_compare, (C08_tie_nuget_compareInt, (C08_tie_nuget_compare_closed, (C08_tie_semver_compare, (C08_tie_semver_compareInt, C08_tie_semver_compare_closed)))))))))))))))))))))))))).
+Definition C08_tie_npm_normalize := @Verif.Tie.Extra.Npm.tie_npm_normalize.
+Definition C08_tie_npm_normalize_conc := @Verif.Tie.Extra.Npm.tie_npm_normalize_conc.
+Definition C08_tie_parse_npm_padPartial := @Verif.Tie.Extra.Npm.tie_parse_npm_padPartial.
+Definition C08_tie_parse_npm_parseCaretRange := @Verif.Tie.Extra.Npm.tie_parse_npm_parseCaretRange.
+Definition C08_tie_parse_npm_parseTildeRange := @Verif.Tie.Extra.Npm.tie_parse_npm_parseTildeRange.
+Definition C08_tie_parseCaretRange_npm_no_panic := @Verif.Tie.Extra.Npm.parseCaretRange_npm_no_panic.
+Definition C08_tie_parseTildeRange_npm_no_panic := @Verif.Tie.Extra.Npm.parseTildeRange_npm_no_panic.
+Definition C08_ties_all := (C08_tie_cargo_compare, (C08_tie_cargo_compareInt, (C08_tie_cargo_compare_closed, (C08_tie_comparePreRelease_total_model, (C08_tie_comparePrereleaseIdentifiers_total_model, (C08_tie_comparePrerelease_total_model, (C08_tie_golang_Version_Compare, (C08_tie_golang_compareInt, (C08_tie_golang_compare_closed, (C08_tie_hex_compare, (C08_tie_hex_compareInt, (C08_tie_hex_compare_closed, (C08_tie_loops_cargo_comparePrereleaseIdentifiers, (C08_tie_loops_golang_comparePrerelease, (C08_tie_loops_hex_comparePreRelease, (C08_tie_loops_npm_comparePrerelease, (C08_tie_loops_nuget_comparePrerelease, (C08_tie_loops_semver_comparePrerelease, (C08_tie_npm_compare, (C08_tie_npm_compareInt, (C08_tie_npm_compare_closed, (C08_tie_npm_normalize, (C08_tie_npm_normalize_conc, (C08_tie_nuget_compare, (C08_tie_nuget_compareInt, (C08_tie_nuget_compare_closed, (C08_tie_parseCaretRange_npm_no_panic, (C08_tie_parseTildeRange_npm_no_panic, (C08_tie_parse_npm_padPartial, (C08_tie_parse_npm_parseCaretRange, (C08_tie_parse_npm_parseTildeRange, (C08_tie_semver_compare, (C08_tie_semver_compareInt, C08_tie_semver_compare_closed))))))))))))))))))))))))))))))))).
 Print Assumptions C08_ties_all.
 (* ====== ties to the source: END ====== *)
